@@ -188,6 +188,10 @@ def run_pair(ctx, p):
         L1, L2 = sm.Plucker.PointDir(P1, D1), sm.Plucker.PointDir(P2, D2)
         if conf in ('general', 'intersecting'):
             dist, f1, f2 = ref.line_line(P1, D1, P2, D2)
+            if p.get('small_angle'):
+                # two lines through X at an angle of 1e-5 .. 1e-4: they meet (to eps x magnitude / angle), both feet are X
+                dist, f1, f2 = 0.0, np.asarray(p['X'], dtype=np.float64), np.asarray(p['X'], dtype=np.float64)
+                sig['small_angle'] = True
             got = float(L1.distance(L2))
             ctx.judge('pairs', abs(got - dist) <= TOL * m, dict(sig, kind='distance_wrong'), lambda: 'distance = %r, elementary geometry gives %r (P1=%s D1=%s P2=%s D2=%s)' % (got, dist, P1, D1, P2, D2))
             cp = L1.commonperp(L2)
@@ -514,11 +518,20 @@ def run(ctx):
                 continue
         elif conf == 'intersecting':
             D2 = direction(rng)
-            if np.linalg.norm(np.cross(D1 / np.linalg.norm(D1), D2 / np.linalg.norm(D2))) < 1e-2:
+            small = rng.random() < 0.25
+            if small:      # nearly parallel: D1 turned by 1e-5 .. 1e-4 rad about an axis normal to it (the conditioning is eps / angle: 2e-11)
+                u1 = D1 / np.linalg.norm(D1)
+                nrm = np.cross(u1, gen.unit_axis(rng))
+                if np.linalg.norm(nrm) < 0.1:
+                    continue
+                D2 = ref.f64(ref.mm(ref.rot(nrm / np.linalg.norm(nrm), float(gen.sign(rng) * gen.logu(rng, 1e-5, 1e-4))), u1.reshape(3, 1))).reshape(-1) * float(gen.logu(rng, 0.5, 2))
+            elif np.linalg.norm(np.cross(D1 / np.linalg.norm(D1), D2 / np.linalg.norm(D2))) < 1e-2:
                 continue
             X = P1 + float(rng.uniform(-3, 3)) * D1 / np.linalg.norm(D1)
             P2 = X + float(rng.uniform(-3, 3)) * D2 / np.linalg.norm(D2)
             extra = {'X': X}
+            if small:
+                extra['small_angle'] = True
         else:
             D2 = D1 * float(gen.logu(rng, 1e-2, 1e2)) * (1.0 if rng.random() < 0.7 else -1.0)
             P2, extra = point(rng), {}
